@@ -281,6 +281,13 @@ RoundFindings(ev) ==
       THEN (IF A.shas # B.shas THEN {<<"C16", "json", "cross-parser", "">>} ELSE {})
            \cup (IF A.out # B.out \/ tms[ev.a] # tms[ev.b] THEN {<<"C06", "twins", "results-or-cache", "">>} ELSE {})
       ELSE {}
+  ELSE IF ev.kind = "twinsout" THEN
+    \* a and b were fed the same buffers since the last mark and allow the same versions: same results
+    LET A == acc[ev.a]  B == acc[ev.b] IN
+    IF [i \in 1..Len(A.calls) |-> A.calls[i].buf] = [i \in 1..Len(B.calls) |-> B.calls[i].buf] /\ allowed[ev.a] = allowed[ev.b]
+         /\ tms[ev.a] = tms[ev.b]
+      THEN (IF A.out # B.out THEN {<<"C12", "filter", "results-after-widening", "">>} ELSE {})
+      ELSE {}
   ELSE IF ev.kind = "trunc" THEN
     \* a was fed, in one call, the bytes b was fed followed by a packet that TruncatedAt says is cut
     LET A == acc[ev.a]  B == acc[ev.b]  n == Len(A.out) IN
